@@ -80,6 +80,9 @@ pub struct BodyReport {
     pub max_preemptions: usize,
     pub replay_checks: u64,
     pub replay_divergences: u64,
+    /// min over shards of the completed preemption bound (-1 = not even bound 0)
+    pub completed_bound: i64,
+    pub shards: u64,
     /// (clause, detail, choices, trace)
     pub violations: Vec<(String, String, Vec<usize>, Vec<String>)>,
     pub machinery: Vec<String>,
@@ -91,7 +94,7 @@ impl BodyReport {
         json!({
             "schedules": self.schedules, "decisions": self.decisions, "capped": self.capped,
             "outcomes": self.outcomes.iter().collect::<Vec<_>>(), "max_preemptions": self.max_preemptions,
-            "replay_checks": self.replay_checks, "replay_divergences": self.replay_divergences,
+            "replay_checks": self.replay_checks, "replay_divergences": self.replay_divergences, "completed_bound": self.completed_bound,
             "violations": self.violations.iter().map(|(c, d, ch, t)| json!({"clause": c, "detail": d, "choices": ch, "trace": t})).collect::<Vec<_>>(),
             "machinery": self.machinery, "sample_traces": self.sample_traces,
         })
@@ -108,6 +111,9 @@ impl BodyReport {
         self.max_preemptions = self.max_preemptions.max(v["max_preemptions"].as_u64().unwrap_or(0) as usize);
         self.replay_checks += v["replay_checks"].as_u64().unwrap_or(0);
         self.replay_divergences += v["replay_divergences"].as_u64().unwrap_or(0);
+        let cb = v["completed_bound"].as_i64().unwrap_or(-1);
+        self.completed_bound = if self.shards == 0 { cb } else { self.completed_bound.min(cb) };
+        self.shards += 1;
         for x in v["violations"].as_array().cloned().unwrap_or_default() {
             self.violations.push((
                 x["clause"].as_str().unwrap_or("").to_string(),
@@ -164,6 +170,7 @@ pub fn explore_body(body: &dyn Body, bound: usize, deadline: Instant, shard: (us
     rep.max_preemptions = st.max_preemptions_seen;
     rep.replay_checks = st.replay_checks;
     rep.replay_divergences = st.replay_divergences;
+    rep.completed_bound = st.completed_bound.map(|b| b as i64).unwrap_or(-1);
     rep.outcomes = outcomes;
     rep.violations = violations;
     rep.machinery = machinery;
@@ -204,6 +211,46 @@ pub fn explore_body_sharded(prop: &str, tier: &str, body_idx: usize, bound: usiz
     rep
 }
 
+/// Scheduling points right before an operation that makes lsm-tree install a new tree version (which draws a
+/// seqno and raises the shared visible seqno): flush registration, compaction, clear, ingestion, meta-keyspace
+/// create/remove.
+const VERSION_UPGRADE_SITES: [&str; 7] = [
+    "flush.got_watermark", "worker.before_compact", "clear.before_apply", "ingest.locked",
+    "meta.create.before_finish", "meta.remove.before_finish", "meta.remove.finished",
+];
+
+/// Sites of *other* threads' steps that ran while some thread was between its first memtable apply
+/// (`*.before_item` / `*.before_apply`) and its publish (`*.before_publish`): names what interleaved mid-commit.
+pub fn interleaved_sites(trace: &[String]) -> String {
+    let parse = |s: &str| -> (String, String) {
+        let (t, rest) = s.split_once(':').unwrap_or(("", s));
+        let site = rest.rsplit_once('@').map(|x| x.1).unwrap_or("");
+        (t.to_string(), site.to_string())
+    };
+    let steps: Vec<(String, String)> = trace.iter().map(|s| parse(s)).collect();
+    let mut out: BTreeSet<&str> = BTreeSet::new();
+    let mut open: Option<String> = None; // thread currently mid-commit
+    for (t, site) in &steps {
+        match &open {
+            None => {
+                if site.ends_with(".before_item") || site.ends_with(".before_apply") {
+                    open = Some(t.clone());
+                }
+            }
+            Some(w) => {
+                if t == w {
+                    if site.ends_with(".before_publish") {
+                        open = None;
+                    }
+                } else if VERSION_UPGRADE_SITES.contains(&site.as_str()) {
+                    out.insert("lsm-version-upgrade");
+                }
+            }
+        }
+    }
+    out.into_iter().collect::<Vec<_>>().join("+")
+}
+
 pub struct BodySpec {
     pub body: Arc<dyn Body + Send>,
     pub bound: usize,
@@ -226,7 +273,7 @@ pub fn fold_e3(o: &mut Outcome, prop: &str, tier: &str, bodies: &[BodySpec], key
         }
         recs.push(json!({
             "body": b.body.name(), "preemption_bound": b.bound, "schedules": rep.schedules, "decisions": rep.decisions,
-            "bound_completed": !rep.capped, "distinct_outcomes": rep.outcomes.len(), "max_preemptions_in_a_schedule": rep.max_preemptions,
+            "bound_completed": !rep.capped, "preemption_bound_completed_exhaustively": rep.completed_bound, "distinct_outcomes": rep.outcomes.len(), "max_preemptions_in_a_schedule": rep.max_preemptions,
             "replay_checks": rep.replay_checks, "replay_divergences": rep.replay_divergences, "violating_schedules": rep.violations.len(),
         }));
         for t in rep.sample_traces.iter().take(1) {
@@ -246,7 +293,12 @@ pub fn fold_e3(o: &mut Outcome, prop: &str, tier: &str, bodies: &[BodySpec], key
         vs.sort_by_key(|(_, _, ch, t)| (ch.iter().filter(|c| **c != 0).count(), t.len()));
         let mut seen = BTreeSet::new();
         for (clause, detail, choices, trace) in vs {
-            let sig = format!("{clause}|body={}", b.body.name());
+            let via = interleaved_sites(&trace);
+            let sig = if via.is_empty() {
+                format!("{clause}|body={}|via=", b.body.name().replace(' ', "_"))
+            } else {
+                format!("{clause}|via={via}")
+            };
             if !seen.insert(sig.clone()) {
                 continue;
             }
